@@ -413,6 +413,15 @@ func c19Effects(run *ev.Run) (int, error) {
 			"func LeakC(s int64, ctxv string) string { return ctxv }\n\n// goverter:context ctxv\nfunc LeakD(s int, ctxv string) string { return ctxv }\n\nfunc LeakE(s int32, ctxv string) string { return ctxv }\n", true,
 			"control: the function carrying the context comment itself", ""})
 	}
+	// ... nor for any later documented function of the file: a parameter that carries the name of another function's
+	// context is that function's source when its own comment declares a different context
+	{
+		n++
+		nm := fmt.Sprintf("X%03d", n)
+		effs = append(effs, eff{nm, "// goverter:converter\n// goverter:extend LeakF\ntype " + nm + " interface {\n\t// goverter:context ctxa\n\tConvert(source In, ctxa string) Out2\n}\n\n" +
+			"// goverter:context ctxv\nfunc LeakG(s int64, ctxv string) string { return ctxv }\n\n// goverter:context other\nfunc LeakF(ctxv int, other string) string { return other }\n", true,
+			"context name of an earlier documented function is an ordinary source parameter name in a later documented function", ""})
+	}
 	// the value of a setting is the text after the FIRST space, verbatim: further leading spaces belong to the value
 	for _, form := range c19Forms() {
 		if form.name == "block-stars" {
